@@ -8,6 +8,9 @@ DRV=$VERIF/xetlint/target/release/xetlint
 [ -x "$DRV" ] || (cd $VERIF/xetlint && cargo +nightly build --release --offline >&2)
 TGT=${XL_TARGET_DIR:-$VERIF/.cache/target-$CFG}
 mkdir -p "$OUT" "$TGT"
+# one extraction at a time per target directory (concurrent runs would delete each other's fingerprints)
+exec 9>"$TGT/.xl-extract.lock"
+flock 9
 rm -f "$OUT"/*.json
 case $CFG in
   rel) FLAGS="-Zmir-opt-level=0 -Awarnings -Cdebug-assertions=off -Coverflow-checks=off";;
